@@ -8,6 +8,7 @@ import SxVerif.Proofs.EngineC08
 import SxVerif.Generated.StagesEngine
 import SxVerif.Generated.Constants
 import SxVerif.Generated.Problems
+import SxVerif.Generated.JsonWriter
 
 namespace SxVerif.C08
 open SxVerif.Engine SxVerif.Generated SxVerif.StageDesc
@@ -23,6 +24,17 @@ theorem stages_as_modelled :
     controllerShape controllerOrder = true ∧ workerBodyShape = true ∧ workerCountWired = true ∧
     workersValidated = true ∧ rateLimitWraps = true ∧
     0 < capEngineErrChan ∧ 0 < resultChanCap ∧ capEngineDoneChan = 0 := by decide
+
+/-- (T) every error handed to the logger becomes one record at once, however many there are: the zap logger is the
+    production configuration with sampling switched off and no further option (its sink is the process's stderr,
+    locked, unbuffered: one `write(2)` per record, nothing kept in memory that a later `Sync` would have to save), and
+    `(*logger).Error` is one call of it.  (zap itself is trusted; the dynamic side are the `…/mass`, `…/slowerr` and
+    `…/errflood` cases of `e2eapp` and component `e2eerr`.) -/
+theorem error_records_written_through :
+    SxVerif.Generated.errorLoggerConfig = "zap.NewProductionConfig()" ∧
+    SxVerif.Generated.errorLoggerConfAssigns = [("Sampling", "nil")] ∧
+    SxVerif.Generated.errorLoggerCtor = ("conf.Build", 0) ∧
+    SxVerif.Generated.loggerErrorBody = ["l.zapl.Error(l.label, zap.Error(err))"] := by decide
 
 /-- the engine as the commands configure it: any `W`, capacities from the source -/
 def cfg (W delay : Nat) : Cfg := { W := W, capErr := capEngineErrChan, capRes := resultChanCap, delay := delay }
